@@ -28,8 +28,9 @@ Definition set_q (r : reg) (id : nat) : sir := XI (ISet r (Z.of_nat id)).
    host reads the returned value); a register claimed with new_register at any time *)
 Definition rf_lookup (r : nat) (st : lst) : option reg :=
   match alook r (l_rf st) with
-  | Some (Rg BM m) => if existsb (reg_eqb (Rg BM m)) (l_ret st) then Some (Rg BM m) else None
-  | x => x
+  | Some (Rg BM m) => Some (Rg BM m)
+  | Some (Rg BR k) => Some (Rg BR k)
+  | _ => None                       (* stale: an M register future of an earlier flush block *)
   end.
 
 Definition low_ix (ix : index) (st : lst) : res rop :=
@@ -72,7 +73,7 @@ Definition deactivate (q : nat) (st : lst) : lst := with_qs st (adel q (l_q st))
 Definition declare (a n : nat) (init : option (list (option Z))) (st : lst) : res lst :=
   if Nat.eqb a (l_next st) then
     Ok (mkL (l_act st) (l_peak st) (l_mused st) (l_q st) (S (l_next st)) (l_decl st ++ [(a, n, init)])
-            (l_ret st) (l_rf st) (l_lv st) ((a, n) :: l_len st))
+            (l_ret st) (l_rf st) (l_lv st) ((a, n) :: l_len st) (l_mscr st))
   else Err EIll.
 
 (* the arrays of an EPR operation: entanglement results, qubit ids (all equal when the
@@ -85,14 +86,14 @@ Fixpoint epr_arrays_at (i n : nat) (seq : bool) (st : lst) : lst :=
       let init := if seq && Nat.eqb i 1 then Some [Some 0%Z; Some 0%Z] else None in
       epr_arrays_at (S i) n' seq
         (mkL (l_act st) (l_peak st) (l_mused st) (l_q st) (S a) (l_decl st ++ [(a, 2, init)])
-             (l_ret st) (l_rf st) (l_lv st) ((a, 2) :: l_len st))
+             (l_ret st) (l_rf st) (l_lv st) ((a, 2) :: l_len st) (l_mscr st))
   end.
 Definition epr_arrays (n : nat) (seq : bool) (st : lst) : lst := epr_arrays_at 0 n seq st.
 
 (* names denote handles: a register-future name is bound once (the model rejects re-use) *)
 Definition bind_rf (r : nat) (m : reg) (st : lst) : lst :=
   mkL (l_act st) (l_peak st) (l_mused st) (l_q st) (l_next st) (l_decl st) (l_ret st)
-      ((r, m) :: l_rf st) (l_lv st) (l_len st).
+      ((r, m) :: l_rf st) (l_lv st) (l_len st) (l_mscr st).
 
 Definition bind_lvr (v r : nat) (st : lst) : lst := with_lvs st ((v, r) :: l_lv st).
 
@@ -175,7 +176,7 @@ Fixpoint lower_stmt (fd : bool) (s : stmt) (st : lst) {struct s} : res (list sir
       let* (k, st1) := take st in
       Ok ([XI (ISet (R k) init)],
           mkL (l_act st1) (l_peak st1) (l_mused st1) (l_q st1) (l_next st1) (l_decl st1)
-              (l_ret st1 ++ [R k]) ((r, R k) :: l_rf st1) (l_lv st1) (l_len st1))
+              (l_ret st1 ++ [R k]) ((r, R k) :: l_rf st1) (l_lv st1) (l_len st1) (l_mscr st1))
       end
   | SLoop cb v None start stop step body =>
       match alook v (l_lv st) with Some _ => Err EIll | None =>
@@ -280,8 +281,12 @@ Fixpoint init_code (ds : list arrdecl) (P : list sir) (st : lst) : res (list sir
       end
   end.
 
+Definition STALE : reg := Rg BC 0.
+Definition stale_rf (l : list (nat * reg)) : list (nat * reg) :=
+  map (fun p : nat * reg => match snd p with Rg BM _ => (fst p, STALE) | _ => p end) l.
 Definition reset_block (st : lst) : lst :=
-  mkL (l_act st) (l_peak st) (repeat false NREGS) (l_q st) (l_next st) [] [] (l_rf st) (l_lv st) (l_len st).
+  mkL (l_act st) (l_peak st) (repeat false NREGS) (l_q st) (l_next st) [] [] (stale_rf (l_rf st)) (l_lv st) (l_len st)
+      (repeat false NREGS).
 
 Definition lower_flush (body : list sir) (st : lst) : res (option (list sir) * lst) :=
   let* (P, st1) := init_code (l_decl st) [] st in
